@@ -515,6 +515,11 @@ func (p *provRunner) genOne(r *Rng, prof provProfile) string {
 		if r.chance(50) {
 			s += fmt.Sprintf(" ds=%s:%d:%d", fr[1+r.intn(2)], int64(9223372036854775807), 1)
 		}
+		if r.chance(12) {
+			// directed: the consumer is stopped in the block of its request: the deletion and the pending
+			// change fall due in the same block, the deletion first
+			p.script = append(p.script, fmt.Sprintf("remove s=%s c=%s", p.ownerOf(c), c))
+		}
 		return s
 	case 11:
 		v := r.intn(prof.nv + prof.nvExtra)
